@@ -440,3 +440,10 @@ WITNESSES += [
     Witness("C05.W13", "menpo/transform/homogeneous/base.py", "Homogeneous._as_vector", "self.h_matrix.ravel()", "self.h_matrix.ravel(order='K')", rule="C05.R9", construct="Homogeneous._as_vector", note="seeded change R4-C05-B"),
     Witness("C05.T3", "menpo/transform/homogeneous/base.py", "Homogeneous._as_vector", "self.h_matrix.ravel()", "self.h_matrix.ravel(order='C')", kind="T"),
 ]
+
+WITNESSES += [
+    Witness("C05.W14", "menpo/shape/pointcloud.py", "PointCloud._from_vector_inplace", "self.points = vector.reshape([-1, self.n_dims])", "self.points[...] = vector.reshape([-1, self.n_dims])",
+            rule="C05.G6", construct="_from_vector_inplace", note="seeded change R5-C05-B (generic: whole-buffer overwrite)"),
+    Witness("C05.W15", "menpo/transform/homogeneous/rotation.py", "AlignmentRotation.set_rotation_matrix", "self._sync_target_from_state()", "if not skip_checks:\n        self._sync_target_from_state()",
+            rule="C05.G9", construct="set_rotation_matrix", note="seeded change R5-C05-A (generic: unconditional call made conditional)"),
+]
